@@ -425,7 +425,8 @@ class Run:
 
             def __call__(self, tree):
                 v = self.inner(tree)
-                run.ev.append(("GSC", run.who, bool(v), int(tree.metaepoch_count)))
+                d = run.deme_objs.get(run.who)
+                run.ev.append(("GSC", run.who, bool(v), int(tree.metaepoch_count), None if d is None else int(d.n_evaluations), getattr(self.inner, "last_user", None)))
                 run.gsc_log.append((len(run.ev) - 1, run.who, bool(v)))
                 if run.on_gsc:
                     run.on_gsc(tree, bool(v))
@@ -491,6 +492,7 @@ class Run:
             run.ev.append(("ROUND_BEGIN", int(tree.metaepoch_count)))
             run.rounds.append({"metaepoch": int(tree.metaepoch_count), "stages": [], "pre": snap_tree(tree, run.order, full=False), "pre_pops": {d.id: [ind_t(i) for i in d.current_population] for _, d in tree.all_demes}, "pre_centroids": {d.id: (None if d.centroid is None else [float(t) for t in d.centroid]) for _, d in tree.all_demes}})
             r = og(tree)
+            run.rounds[-1]["env"] = round_env(run, tree)
             run.rounds[-1]["seeds"] = {d.id: [ind_t(i) for i in c.individuals] for d, c in r.items()}
             run.ev.append(("ROUND_END", {d.id: len(c.individuals) for d, c in r.items()}))
             return r
@@ -515,7 +517,9 @@ class Run:
             """user-level composite: the configured condition OR a metaepoch cap (keeps every run finite)"""
 
             def __call__(self, tree):
-                return bool(inner(tree)) or tree.metaepoch_count >= cap
+                iv = bool(inner(tree))
+                self.last_user = iv if isinstance(inner, UserGSC) else None
+                return iv or tree.metaepoch_count >= cap
 
             def __str__(self):
                 return f"Capped({inner},{cap})"
@@ -589,6 +593,41 @@ class Run:
         finally:
             T.init_from_config = orig_init
         return self
+
+
+def norm_ord_of(spec):
+    s = spec["sprout"]
+    return s.get("norm_ord", 2) if s["kind"] == "custom" else 2
+
+
+def round_env(run, tree):
+    """NumPy's numerics for one sprouting round (pre-sprout state): per candidate parent the
+    pairwise distance matrix of its current population (same call shape as the code), and
+    for every generated candidate x every deme of the target level the p-norm distance to
+    that deme's centroid as the real accessor returns it."""
+    import numpy.linalg as nla
+
+    stages = run.rounds[-1]["stages"]
+    env = {"nbc": {}, "dist": []}
+    if not stages:
+        return env
+    gen = stages[0]
+    ordn = norm_ord_of(run.spec)
+    demes = {d.id: d for _, d in tree.all_demes}
+    for did, c in gen["out"].items():
+        d = demes[did]
+        pop = d.current_population
+        if gen["cls"] != "BestPerDeme" and d.is_active and pop:
+            G = np.array([i.genome for i in pop], dtype=float)
+            mat = [[float(t) for t in np.linalg.norm(G[i] - G, axis=1)] for i in range(len(pop))]
+            env["nbc"][did] = {"n": len(pop), "mat": mat, "mean": c["nbc_mean"]}
+        if d.level + 1 < len(tree.levels):
+            for sib in tree.levels[d.level + 1]:
+                cen = sib.centroid
+                for g, _ in c["inds"]:
+                    dist = None if cen is None else float(nla.norm(np.array(g) - cen, ord=ordn))
+                    env["dist"].append((g, sib.id, dist, None if cen is None else [float(t) for t in cen]))
+    return env
 
 
 def run_spec(spec, **kw):
